@@ -433,6 +433,13 @@ for x in (-273.15, -40.0, 0.0, 36.6, 1e6, {x!r}):
     q = to_kelvin_quantity(Celsius(x))
     if abs(float(convert_to_si(q)) - (x + 273.15)) > 1e-9 * (abs(x) + 273.15): bad = True; print("to_kelvin_quantity", x, q.scale_factor)
     if abs(from_kelvin_quantity(q).value - x) > 1e-9 * (abs(x) + 273.15): bad = True; print("from_kelvin_quantity", x)
+# one Celsius object, swept through several values
+c = Celsius(10.0)
+for x in (10.0, 25.0, -40.0, {x!r}):
+    c.value = x
+    if abs(float(convert_to_si(to_kelvin_quantity(c))) - (x + 273.15)) > 1e-9 * (abs(x) + 273.15): bad = True; print("reused object: to_kelvin_quantity", x, to_kelvin_quantity(c).scale_factor)
+    if abs(to_kelvin(c) - (x + 273.15)) > 1e-9 * (abs(x) + 273.15): bad = True; print("reused object: to_kelvin", x)
+    if abs(from_kelvin_quantity(to_kelvin_quantity(c)).value - x) > 1e-9 * (abs(x) + 273.15): bad = True; print("reused object: round trip", x)
 if bad:
     print("REPRODUCED"); sys.exit(1)
 '''
@@ -547,6 +554,40 @@ def part_prefix_celsius(ctx):
                 ctx.violation("C07:celsius:from_kelvin_quantity", "from_kelvin_quantity(x K) is not x - 273.15", REPLAY_CELSIUS.format(x=20.0))
         except (LiftUnsupported, Unencodable, TypeError, AttributeError) as e:
             ctx.ob("celsius:quantity-forms", "unencoded", f"{type(e).__name__}: {e}")
+    # a Celsius object is mutable: after its value is changed, every conversion answers for the NEW value (two symbolic temperatures)
+    ses = Session(ctx)
+    with ses.active(), rebound(*bindings()):
+        try:
+            x1, x2 = ses.scalar("x1"), ses.scalar("x2")
+            z1, z2 = ses.z(x1), ses.z(x2)
+
+            def reuse():
+                c = CE.Celsius(x1)
+                first = (CE.to_kelvin_quantity(c), CE.to_kelvin(c))
+                c.value = x2
+                return CE.to_kelvin_quantity(c), CE.to_kelvin(c), first
+            ps = explore(reuse)
+            bad = None
+            for p in ps:
+                if p.kind != "ret":
+                    bad = "raised"
+                    continue
+                qk, fk, _first = p.value
+                tq = ses.z(qk.scale_factor)
+                tf = fk.t if isinstance(fk, lift.SymFloat) else ses.z(fk)
+                r, m = ses.check(p.pc + [z3.Or(absz(tq - (z2 + OFF)) > eps * (absz(z2) + OFF), absz(tf - (z2 + OFF)) > eps * (absz(z2) + OFF))])
+                if r == "sat":
+                    bad = "value"
+                elif r != "unsat" and bad is None:
+                    bad = "unknown"
+            if bad is None:
+                ctx.ob("celsius:conversions of a reused (mutated) Celsius object answer for its current value", "discharged")
+            elif bad == "value":
+                ctx.violation("C07:celsius:reused-object", "after `c.value = x2`, to_kelvin_quantity(c) / to_kelvin(c) do not answer x2 + 273.15", REPLAY_CELSIUS.format(x=20.0))
+            else:
+                ctx.ob("celsius:conversions of a reused (mutated) Celsius object", "inconclusive" if bad == "unknown" else "unencoded", bad)
+        except (LiftUnsupported, Unencodable, TypeError, AttributeError) as e:
+            ctx.ob("celsius:conversions of a reused (mutated) Celsius object", "unencoded", f"{type(e).__name__}: {e}")
     # a quantity that is not a temperature is refused, whatever its magnitude (symbolic magnitude and symbolic dimension != temperature)
     ses = Session(ctx)
     with ses.active(), rebound(*bindings()):
@@ -629,6 +670,54 @@ def foreign_bad():
 '''
 
 
+MAGNITUDE_SRC = r"""
+import sympy as sp
+from sympy.physics import units
+from symplyphysics import Quantity, convert_to, convert_to_si
+from symplyphysics.core.convert import evaluate_expression, evaluate_quantity, convert_to_float
+def magnitude_bad():
+    # evaluate_expression / evaluate_quantity / convert_to_float keep the value at extreme magnitudes: nothing is rounded to zero, nothing overflows
+    # (exact rational magnitudes from 1e-300 to 1e300; the lifted runs treat evalf as the identity on reals, so its options show only here)
+    bad = []
+    mags = [sp.Rational(1, 10**e) for e in (300, 120, 34, 20, 17, 16, 15, 12)] + [sp.Integer(10)**e for e in (12, 17, 30, 300)] + [sp.Rational(662607015, 10**42)]
+    rel = lambda got, want: abs(sp.N(got, 30) - sp.N(want, 30)) <= sp.Float("1e-12") * abs(sp.N(want, 30))
+    for m in mags:
+        for sign in (1, -1):
+            v = sign * m
+            q = Quantity(v * units.meter)
+            t = Quantity(3 * units.second)
+            for label, call, want in (("evaluate_expression(q, evaluate=True)", lambda: evaluate_expression(q, evaluate=True), v),
+                                      ("evaluate_expression(q)", lambda: evaluate_expression(q), v),
+                                      ("evaluate_expression(2*q/t, evaluate=True)", lambda: evaluate_expression(2 * q / t, evaluate=True), 2 * v / 3),
+                                      ("evaluate_expression(q*1e40, evaluate=True)", lambda: evaluate_expression(q * sp.Integer(10)**40, evaluate=True), v * sp.Integer(10)**40),
+                                      ("evaluate_quantity(q*q/t).scale_factor", lambda: evaluate_quantity(q * q / t).scale_factor, v * v / 3),
+                                      ("convert_to_si(q)", lambda: convert_to_si(q), v),
+                                      ("convert_to(q, km)", lambda: convert_to(q, units.kilometer), v / 1000),
+                                      ("convert_to_float(Quantity(v))", lambda: convert_to_float(Quantity(v)), v)):
+                try:
+                    got = call()
+                    if got.free_symbols if hasattr(got, "free_symbols") else False:
+                        got = got.subs({s: 1 for s in got.free_symbols})
+                    if "float" in label and (abs(float(v)) == 0.0 or abs(float(v)) == float("inf")):
+                        continue
+                    if not rel(got, want):
+                        bad.append(f"{label} with q = {sp.N(v, 6)} m: {sp.N(got, 8)}, expected {sp.N(want, 8)}")
+                except Exception as ex:
+                    bad.append(f"{label} with q = {sp.N(v, 6)} m: raised {type(ex).__name__}: {ex}")
+    return bad
+"""
+
+
+def part_magnitudes(ctx):
+    ns = {}
+    exec(MAGNITUDE_SRC, ns)
+    bad = ns["magnitude_bad"]()
+    if bad:
+        ctx.violation("C07:extreme-magnitudes", "; ".join(bad[:4]) + f" ({len(bad)} cases)", MAGNITUDE_SRC + "\nimport sys\nb = magnitude_bad()\nprint(b[:8])\nif b:\n    print('REPRODUCED'); sys.exit(1)\n")
+    else:
+        ctx.ob("evaluate_expression / evaluate_quantity / convert_to / convert_to_si / convert_to_float keep the value for magnitudes 1e-300 .. 1e300 (26 magnitudes x 8 calls)", "discharged", nontrivial=False)
+
+
 def part_foreign(ctx):
     ns = {}
     exec(FOREIGN_SRC, ns)
@@ -661,3 +750,4 @@ def run(ctx):
     part_eval(ctx)
     part_prefix_celsius(ctx)
     part_foreign(ctx)
+    part_magnitudes(ctx)
